@@ -594,3 +594,120 @@ func helperResult(v ssa.Value) ssa.Value {
 	}
 	return retResults(ret)[idx]
 }
+
+// neverNil: v is a value that is never nil (see boolEnv.nilOf).
+func neverNil(v ssa.Value) bool {
+	switch x := v.(type) {
+	case *ssa.MakeInterface, *ssa.Alloc:
+		return true
+	case *ssa.Call:
+		switch calleeName(x) {
+		case "fmt.Errorf", "errors.New":
+			return true
+		}
+	}
+	return false
+}
+
+// helperOKReturns: v is result #i of a direct call to a module helper whose
+// last result is an error (#j, j != i). Returns the call, the helper and the
+// helper's return statements that may carry a nil error.
+func helperOKReturns(v ssa.Value) (call *ssa.Call, h *ssa.Function, i, j int, rets []*ssa.Return) {
+	call, i = extractOf(v)
+	if call == nil {
+		return nil, nil, 0, 0, nil
+	}
+	h = call.Common().StaticCallee()
+	if h == nil || h.Blocks == nil || !isModFunc(h) {
+		return nil, nil, 0, 0, nil
+	}
+	res := h.Signature.Results()
+	j = res.Len() - 1
+	if j < 1 || i == j || !isErrorType(res.At(j).Type()) {
+		return nil, nil, 0, 0, nil
+	}
+	for _, b := range h.Blocks {
+		ret, ok := lastInstr(b).(*ssa.Return)
+		if !ok {
+			continue
+		}
+		rr := retResults(ret)
+		if j >= len(rr) {
+			return nil, nil, 0, 0, nil
+		}
+		if neverNil(rr[j]) {
+			continue
+		}
+		if known, isNil := errIsNilAt(ret, rr[j]); known && !isNil {
+			continue // returned under `err != nil`
+		}
+		rets = append(rets, ret)
+	}
+	return call, h, i, j, rets
+}
+
+func isErrorType(t types.Type) bool {
+	n, ok := t.(*types.Named)
+	return ok && n.Obj().Pkg() == nil && n.Obj().Name() == "error"
+}
+
+// errResultOf: the Extract of result #j of call, if any.
+func errResultOf(call *ssa.Call, j int) ssa.Value {
+	for _, ref := range *call.Referrers() {
+		if ex, ok := ref.(*ssa.Extract); ok && ex.Index == j {
+			return ex
+		}
+	}
+	return nil
+}
+
+// cmpFactsVia: comparisons that hold for v at `at` because v is a result of a
+// helper whose error result is known to be nil at `at`: the comparisons that
+// hold for the returned value at every return of the helper that may carry a
+// nil error. Operands that are parameters of the helper are replaced by the
+// call's arguments.
+func cmpFactsVia(v ssa.Value, at ssa.Instruction) []cmpFact {
+	call, h, i, j, rets := helperOKReturns(stripConv(v))
+	if call == nil || len(rets) == 0 {
+		return nil
+	}
+	ev := errResultOf(call, j)
+	if ev == nil {
+		return nil
+	}
+	if known, isNil := errIsNilAt(at, ev); !known || !isNil {
+		return nil
+	}
+	mapArg := func(o ssa.Value) ssa.Value {
+		if pp, ok := stripConv(o).(*ssa.Parameter); ok && pp.Parent() == h {
+			for k, q := range h.Params {
+				if q == pp && k < len(call.Common().Args) {
+					return call.Common().Args[k]
+				}
+			}
+		}
+		return o
+	}
+	var acc []cmpFact
+	for n, ret := range rets {
+		var here []cmpFact
+		for _, f := range cmpFactsFor(retResults(ret)[i], ret) {
+			here = append(here, cmpFact{f.op, mapArg(f.other)})
+		}
+		if n == 0 {
+			acc = here
+			continue
+		}
+		var keep []cmpFact
+		for _, a := range acc {
+			for _, b := range here {
+				if a.op == b.op && sameShape(a.other, b.other, 0) {
+					keep = append(keep, a)
+					break
+				}
+			}
+		}
+		acc = keep
+	}
+	return acc
+}
